@@ -6,13 +6,23 @@ package main
 
 import (
 	"fmt"
+	"os"
+	"runtime"
 	"go/types"
 	"math/big"
 	"sort"
 	"strings"
+	"sync"
 
 	"golang.org/x/tools/go/ssa"
 )
+
+var (
+	forkMu    sync.Mutex
+	forkSites = map[string]int{}
+)
+
+var debugDecisions = os.Getenv("VERIF_DEBUG_DECISIONS") != ""
 
 // control-flow panics used inside the engine
 type engineError struct{ msg string }
@@ -79,6 +89,7 @@ type PathResult struct {
 	SchedChoices int
 	TimersFired  int
 	Races        []string
+	SelectChoices int
 }
 
 type Run struct {
@@ -144,6 +155,24 @@ func (r *Run) inPrefix() bool { return r.pos < len(r.prefix) }
 // decide consumes one decision. alts computes the feasible alternatives when
 // the decision lies beyond the prefix; the first is taken, the rest queued.
 func (r *Run) decide(alts func() []int64) int64 {
+	if debugDecisions {
+		tag := ""
+		for i := 1; i < 5; i++ {
+			if pc, _, line, ok := runtime.Caller(i); ok {
+				tag += fmt.Sprintf("%s:%d<", strings.TrimPrefix(runtime.FuncForPC(pc).Name(), "main."), line)
+			}
+		}
+		where := ""
+		if r.cur != nil && len(r.cur.stack) > 0 {
+			fr := r.cur.stack[len(r.cur.stack)-1]
+			where = fr.fn.String()
+			if fr.block != nil && fr.pc > 0 {
+				p := r.eng.prog.Fset.Position(fr.block.Instrs[fr.pc-1].Pos())
+				where += fmt.Sprintf(":%d", p.Line)
+			}
+		}
+		r.notes = append(r.notes, fmt.Sprintf("decision %d by %s at %s", len(r.decisions), tag, where))
+	}
 	if r.pos < len(r.prefix) {
 		d := r.prefix[r.pos]
 		r.pos++
@@ -153,6 +182,20 @@ func (r *Run) decide(alts func() []int64) int64 {
 	as := alts()
 	if len(as) == 0 {
 		panic(pathEnd{"infeasible"})
+	}
+	if debugDecisions && len(as) > 1 {
+		where := "?"
+		if r.cur != nil && len(r.cur.stack) > 0 {
+			fr := r.cur.stack[len(r.cur.stack)-1]
+			where = fr.fn.String()
+			if fr.block != nil && fr.pc > 0 {
+				p := r.eng.prog.Fset.Position(fr.block.Instrs[fr.pc-1].Pos())
+				where += fmt.Sprintf(":%d", p.Line)
+			}
+		}
+		forkMu.Lock()
+		forkSites[where] += len(as) - 1
+		forkMu.Unlock()
 	}
 	base := append([]int64(nil), r.decisions...)
 	for _, a := range as[1:] {
